@@ -236,18 +236,25 @@ def equilibrium_range_values(
         unraveled_index = np.unravel_index(index, i_min_variance.shape)
         i_min_variance = i_min_variance.flatten()
 
+        # Missing (NaN) bins are skipped, as they are in the running mean used to
+        # select the window above.
+        count = np.zeros(e.shape)
         for ii in range(0, number_of_bins):
             jj = np.clip(i_min_variance + ii, a_min=0, a_max=nf - 1 - number_of_bins)
 
             indexer = tuple([ind for ind in unraveled_index] + [jj])
 
-            e[unraveled_index] += scaled_spec.values[indexer]
-            a1[unraveled_index] += spectrum.a1.values[indexer]
-            b1[unraveled_index] += spectrum.b1.values[indexer]
-        fac = 1 / number_of_bins
-        e *= fac
-        a1 *= fac
-        b1 *= fac
+            values = scaled_spec.values[indexer]
+            valid = ~np.isnan(values)
+            e[unraveled_index] += np.where(valid, values, 0.0)
+            a1[unraveled_index] += np.where(valid, spectrum.a1.values[indexer], 0.0)
+            b1[unraveled_index] += np.where(valid, spectrum.b1.values[indexer], 0.0)
+            count[unraveled_index] += valid
+        with np.errstate(divide="ignore", invalid="ignore"):
+            fac = 1 / count
+            e *= fac
+            a1 *= fac
+            b1 *= fac
 
         return e, a1, b1
 
